@@ -294,22 +294,47 @@ def write_replay(pid, payload):
 
 def evaluate(prop, cases, hashseeds, case_timeout):
     """Runs model and implementation on the cases; returns list of
-    (case, hashseed, impl_obs, model_obs) for the disagreements plus counts."""
-    calls = [prop.to_model(c) for c in cases]
-    raw = run_model(prop.ID, calls)
-    model_obs = []
-    for c, r in zip(cases, raw):
-        if r == [-1] or r == [-2]:
-            raise RuntimeError("model rejected case (harness bug): %r -> %r" % (json.dumps(c)[:400], r))
-        model_obs.append(prop.model_obs(c, r))
+    (case, hashseed, impl_obs, model_obs) for the disagreements plus counts.
+    With MODEL_AFTER_IMPL the implementation runs first and the model (a
+    verified checker) is applied to what it produced."""
+    after = getattr(prop, "MODEL_AFTER_IMPL", False)
     bad = []
     impl_by_seed = {}
+    if not after:
+        calls = [prop.to_model(c) for c in cases]
+        raw = run_model(prop.ID, calls)
+        model_obs = []
+        for c, r in zip(cases, raw):
+            if r == [-1] or r == [-2]:
+                raise RuntimeError("model rejected case (harness bug): %r -> %r" % (json.dumps(c)[:400], r))
+            model_obs.append(prop.model_obs(c, r))
+        for hs in hashseeds:
+            impl_obs = run_impl(prop.IMPL_MODULE, cases, hs, case_timeout)
+            impl_by_seed[hs] = impl_obs
+            for c, io, mo in zip(cases, impl_obs, model_obs):
+                if not prop.agree(c, io, mo):
+                    bad.append((c, hs, io, mo))
+        return bad, model_obs, impl_by_seed
+    model_obs = [None] * len(cases)
     for hs in hashseeds:
         impl_obs = run_impl(prop.IMPL_MODULE, cases, hs, case_timeout)
         impl_by_seed[hs] = impl_obs
-        for c, io, mo in zip(cases, impl_obs, model_obs):
+        calls, owner = [], []
+        for k, (c, io) in enumerate(zip(cases, impl_obs)):
+            for call in prop.to_model(c, io):
+                calls.append(call)
+                owner.append(k)
+        raw = run_model(prop.ID, calls)
+        per_case = {}
+        for k, r in zip(owner, raw):
+            if r == [-1] or r == [-2]:
+                raise RuntimeError("model rejected case (harness bug): %r -> %r" % (json.dumps(cases[k])[:400], r))
+            per_case.setdefault(k, []).append(r)
+        for k, (c, io) in enumerate(zip(cases, impl_obs)):
+            mo = prop.model_obs(c, per_case.get(k, []), io)
+            model_obs[k] = mo
             if not prop.agree(c, io, mo):
-                bad.append((c, hs, io, mo))
+                bad.append((c, hs, prop.slim(io) if hasattr(prop, "slim") else io, mo))
     return bad, model_obs, impl_by_seed
 
 
@@ -425,7 +450,10 @@ def main(argv):
             unexplained += 1
             if unexplained > 25:
                 continue
-            small = c if args.replay else shrink(prop, c, hs, case_timeout)
+            if args.replay or (hasattr(prop, "should_shrink") and not prop.should_shrink(c, io, mo)):
+                small = c
+            else:
+                small = shrink(prop, c, hs, case_timeout)
             if small is not c:
                 b2, mo2, ib2 = evaluate(prop, [small], [hs], case_timeout)
                 if b2:
